@@ -6,8 +6,9 @@ builder: the derived ranges are sorted, non-overlapping and inside the file, eac
 name on the reported line, and entries that cannot be placed are dropped instead of failing the build.
 -/
 import ZoektModel.C37.Lemmas
+import ZoektModel.C37.Aligned
 namespace ZoektModel.C37
-open ZoektModel
+open ZoektModel ZoektModel.Utf8
 
 /-- invariant of the fold in `Convert` -/
 def Inv (content : Bytes) (tags : List Entry) (st : St) : Prop :=
@@ -96,8 +97,36 @@ theorem convert_covers_name (content : Bytes) (tags : List Entry) :
   obtain ⟨_, hl, hc⟩ := convert_inv content tags
   exact ⟨hl, hc⟩
 
-/-- **C37, accepted by the builder's section checks** (chain and end-of-content checks of `ShardBuilder.Add`;
-    the rune-boundary check of `newSearchableString` is outside this theorem — see `C37_partial` note in DESIGN.md) -/
+/-- second invariant of the fold: every section boundary is a rune start of the content (names valid UTF-8) -/
+def InvS (content : Bytes) (st : St) : Prop :=
+  ∀ s ∈ st.secs, s.start ∈ startsFrom content 0 ∧ s.stop ∈ startsFrom content 0
+
+theorem step_invS (content : Bytes) (st : St) (t : Entry) (hv : valid t.name = true)
+    (h : InvS content st) : InvS content (step content (newLinesIndices content) st t) := by
+  unfold step
+  split
+  · exact h
+  · rename_i sec hloc
+    split
+    · exact h
+    · rename_i i hov
+      intro s hs
+      simp only [insertAt, List.mem_append, List.mem_cons] at hs
+      rcases hs with hs | rfl | hs
+      · exact h s (List.mem_of_mem_take hs)
+      · exact locate_starts content t s hloc hv
+      · exact h s (List.mem_of_mem_drop hs)
+
+theorem fold_invS (content : Bytes) (ts : List Entry) (hts : ∀ t ∈ ts, valid t.name = true)
+    (st : St) (h : InvS content st) :
+    InvS content (ts.foldl (step content (newLinesIndices content)) st) := by
+  induction ts generalizing st with
+  | nil => exact h
+  | cons t ts ih =>
+    simp only [List.foldl_cons]
+    exact ih (fun x hx => hts x (by simp [hx])) _ (step_invS content st t (hts t (by simp)) h)
+
+/-- **C37, accepted by the builder: chain and end-of-content checks** (no hypothesis on names) -/
 theorem convert_accepted_partial (content : Bytes) (tags : List Entry) :
     addAccepts content.length (convert content tags).secs = true := by
   obtain ⟨⟨hp, hb⟩, _, _⟩ := convert_inv content tags
@@ -105,15 +134,44 @@ theorem convert_accepted_partial (content : Bytes) (tags : List Entry) :
   rw [chainOk_eq, pairwise_sortedDisjoint _ hp]
   simpa using lastStop_le _ _ hb
 
+/-- **C37, accepted by the builder: the rune-boundary check of `newSearchableString`** — every boundary of every
+    derived section is matched by the decoding loop, for any content (valid UTF-8 or not), when the entry names are
+    valid UTF-8 (they come from encoding/json). -/
+theorem convert_rune_aligned (content : Bytes) (tags : List Entry) (hv : namesValid tags = true) :
+    runeAligned content (convert content tags).secs = true := by
+  have hv' : ∀ t ∈ tags, valid t.name = true := by
+    simpa [namesValid, List.all_eq_true] using hv
+  obtain ⟨hwf, _, _⟩ := convert_inv content tags
+  have hs : InvS content (convert content tags) := fold_invS content tags hv' ⟨[], []⟩ (by intro s hs; simp at hs)
+  apply runeAligned_of _ _ (boundaries_sorted _ _ hwf)
+  intro x hx
+  simp only [boundaries, List.mem_flatMap] at hx
+  obtain ⟨s, hs', hx⟩ := hx
+  simp at hx
+  rcases hx with rfl | rfl
+  · exact (hs s hs').1
+  · exact (hs s hs').2
+
+/-- **C37, always accepted by the shard builder** (all three section checks of `ShardBuilder.Add`) -/
+theorem convert_accepted (content : Bytes) (tags : List Entry) (hv : namesValid tags = true) :
+    addAcceptsFull content (convert content tags).secs = true := by
+  unfold addAcceptsFull
+  rw [convert_accepted_partial, convert_rune_aligned content tags hv]; rfl
+
 /-- **C37 as evaluated by the driver on the implementation's output** -/
-theorem C37_checkP (content : Bytes) (tags : List Entry) :
+theorem C37_checkP (content : Bytes) (tags : List Entry) (hv : namesValid tags = true) :
     checkP content tags (convert content tags).secs (convert content tags).syms = true := by
   obtain ⟨hwf, hl, hc⟩ := convert_inv content tags
   have h1 := convert_sorted_disjoint content tags
-  have h2 := convert_accepted_partial content tags
+  have h2 := convert_accepted content tags hv
   unfold checkP
   simp only [Bool.and_eq_true, List.all_eq_true, beq_iff_eq]
   exact ⟨⟨⟨⟨hl, h1.1⟩, h1.2⟩, hc⟩, h2⟩
+
+/-- the hypothesis is needed: a name cut inside a multi-byte rune ("é" = C3 A9, name = A9) is placed by `Convert`
+    and then rejected by the builder ("no rune for section boundary") -/
+theorem convert_accepted_needs_valid_names :
+    addAcceptsFull [0xC3, 0xA9] (convert [0xC3, 0xA9] [⟨1, [0xA9], 0⟩]).secs = false := by decide
 
 /-- entries that cannot be placed are dropped, never an error or a panic: `convert` is total by construction
     (it returns a plain value) and its only partial Go operation, the slice `content[lineOff:end]`, is in bounds. -/
@@ -127,7 +185,8 @@ def exContent : Bytes := [97, 98, 32, 99, 100, 10, 101, 102, 32, 97, 98, 10]
 def exTags : List Entry :=
   [⟨2, [97, 98], 0⟩, ⟨1, [99, 100], 1⟩, ⟨1, [97, 98], 2⟩,
    ⟨1, [98, 32, 99], 3⟩, ⟨0, [97, 98], 4⟩, ⟨9, [97, 98], 5⟩, ⟨2, [122, 122], 6⟩]
-example : (convert exContent exTags).secs = [⟨0, 2⟩, ⟨3, 5⟩, ⟨9, 11⟩] ∧ (convert exContent exTags).syms = [2, 1, 0] := by
+example : (convert exContent exTags).secs = [⟨0, 2⟩, ⟨3, 5⟩, ⟨9, 11⟩] ∧ (convert exContent exTags).syms = [2, 1, 0] ∧
+    namesValid exTags = true := by
   decide
 
 end ZoektModel.C37
